@@ -771,8 +771,8 @@ pub(crate) mod verif_local_braces {
 
     /// The width `rewrite_match_arm` takes off the pattern's shape for what follows the
     /// pattern (` => {`, or ` => 'label: {`), as a function of the body.
-    pub(crate) fn pat_shape_overhead(body: &ast::Expr) -> usize {
-        match body.kind {
+    pub(crate) fn pat_shape_overhead(context: &RewriteContext<'_>, body: &ast::Expr) -> usize {
+        match flatten_arm_body(context, body, None).1.kind {
             ast::ExprKind::Block(_, Some(label)) => 7 + label.ident.as_str().len(),
             _ => 5,
         }
